@@ -396,7 +396,10 @@ impl GlyphDeltas {
     // buffers, and that can be improved at the cost of a bit more complexity
     // <https://github.com/googlefonts/fontations/issues/635>
     fn pick_best_point_number_repr(deltas: &[GlyphDelta]) -> PackedPointNumbers {
-        if deltas.iter().all(|d| d.required) {
+        // An empty set of point numbers cannot be represented: a point count
+        // of zero means 'deltas for all points'. If nothing is required, write
+        // all the deltas.
+        if deltas.iter().all(|d| d.required) || !deltas.iter().any(|d| d.required) {
             return PackedPointNumbers::All;
         }
 
@@ -835,6 +838,39 @@ mod tests {
             .map(|d| (d.x_delta, d.y_delta))
             .collect();
         assert_eq!(points, vec![(30, 31), (101, 102), (10, 11)]);
+    }
+
+    #[test]
+    fn no_required_deltas_are_not_all_points() {
+        // If no delta is required the set of explicit point numbers is empty,
+        // but a point count of zero means 'deltas for all points': such a
+        // tuple must not be written with an empty point number list followed
+        // by no deltas at all.
+        let gid = GlyphId::new(0);
+        let table = Gvar::new(
+            vec![GlyphVariations::new(
+                gid,
+                vec![GlyphDeltas::new(
+                    peaks(vec![F2Dot14::from_f32(1.0)]),
+                    vec![GlyphDelta::optional(0, 0); 5],
+                )],
+            )],
+            1,
+        )
+        .unwrap();
+
+        let bytes = crate::dump_table(&table).unwrap();
+        let gvar = read_fonts::tables::gvar::Gvar::read(FontData::new(&bytes)).unwrap();
+        let g1 = gvar.glyph_variation_data(gid).unwrap().unwrap();
+        let g1tup = g1.tuples().collect::<Vec<_>>();
+        assert_eq!(g1tup.len(), 1);
+        let tuple_variation = &g1tup[0];
+        assert!(tuple_variation.has_deltas_for_all_points());
+        let points: Vec<_> = tuple_variation
+            .deltas()
+            .map(|d| (d.x_delta, d.y_delta))
+            .collect();
+        assert_eq!(points, vec![(0, 0); 5]);
     }
 
     #[test]
